@@ -10,6 +10,8 @@ def _core(out, tier, seed, prop, quick_mc, thorough_mc, quick_rand, thorough_ran
     for cat in ("gfa1", "gfa2"):
         jobs["rand-" + cat] = core.random_jobs(cat, nr, depth, seed)
         jobs["doc-" + cat] = core.doc_jobs(cat, nr, max(3, depth // 2), seed + 1)
+        # random graphs with names and values outside the catalogues
+        jobs["fuzz-" + cat] = core.fuzz_jobs(max(40, nr // 2), seed + 11, cat)
         # the other validation levels (C18: the level never changes the result on valid input)
         for vl in (0, 2, 3):
             jobs["doc-%s-v%d" % (cat, vl)] = core.doc_jobs(cat, max(20, nr // 5), max(3, depth // 2), seed + 2 + vl,
